@@ -844,6 +844,17 @@ pub fn run_batch(cfg: BatchCfg) -> BatchReport {
         "wall_s": wall,
         "violations": unknown,
     });
+    println!(
+        "determinism self-check: {determinism_runs} runs re-executed alone in fresh processes, {} event-log digests differ",
+        determinism_mismatches.len()
+    );
+    if std::env::var_os("WACSIM_NO_EVIDENCE").is_some() {
+        if !determinism_mismatches.is_empty() {
+            eprintln!("harness error: non-deterministic runs {:?}", &determinism_mismatches[..determinism_mismatches.len().min(10)]);
+            return BatchReport { exit_code: 2 };
+        }
+        return BatchReport { exit_code: if violation_lines.is_empty() { 0 } else { 1 } };
+    }
     let ev_dir = verif_root().join("evidence");
     let _ = std::fs::create_dir_all(&ev_dir);
     let ev_path = ev_dir.join(format!("{}.json", cfg.prop));
